@@ -159,7 +159,7 @@ func renderRows(res *results.Result) string {
 	if res == nil {
 		return "err:nil-result"
 	}
-	if res.Status.Code != types.StatusOK && res.Status.Code != types.StatusEmpty {
+	if res.Status.Code != types.StatusOK && res.Status.Code != types.StatusEmpty && res.Status.Code != types.StatusMissingData {
 		return "err:status-" + esc(string(res.Status.Code))
 	}
 	var rows []string
@@ -170,7 +170,7 @@ func renderRows(res *results.Result) string {
 	}
 	sort.Strings(rows)
 	t := res.Summary.Totals
-	return fmt.Sprintf("rows=%s totals=%d:%d:%d:%d hits=%d", listField(rows), t.BytesRcvd, t.BytesSent, t.PacketsRcvd, t.PacketsSent, res.Summary.Hits.Total)
+	return fmt.Sprintf("rows=%s|totals=%d:%d:%d:%d|hits=%d", listField(rows), t.BytesRcvd, t.BytesSent, t.PacketsRcvd, t.PacketsSent, res.Summary.Hits.Total)
 }
 
 // listSummary returns, per interface (sorted), `iface/v4:v6:drops:br:bs:pr:ps` over [first,last] via ReadMetadata
